@@ -127,6 +127,19 @@ SUMMARY.update({
 })
 
 
+SUMMARY.update({
+ "C04-7": "invariant code treats mass == 1 on hydrogen as absent while the attribute stays and is serialized: a 1H label among equivalent hydrogens gets a listing-dependent number",
+ "C05-7": "Hill order only when the carbon count is > 1: 'CCl3H', 'Br4C' for exactly one carbon",
+ "C05-8": "one block per property: (6:mass=13)(6:rad=2) instead of (6:mass=13,rad=2)",
+ "C12-7": "canonical graph rebuilt with add_weighted_edges_from: bonds without bond_type gain bond_type 1, other bond attributes are lost",
+ "C12-8": "initial partitioning done in place (copy=False): the caller's graph gets its partition attribute overwritten",
+ "C13-7": "hydrogens skipped as neighbours during refinement: with a bridging hydrogen two heavy atoms that differ only behind it share a class (Na-H-F + Na-H-Cl)",
+ "C13-8": "refinement stops when the number of heavy-atom classes is unchanged (Li-H-Be-F + Li-H-Be-Cl)",
+ "C16-7": "completeness tested per fragment: two HCl molecules are 'complete', no enforcement, same edge set returned",
+ "C16-8": "retry path re-shuffles the rejected candidate without re-sorting: atoms not in label order after a retry",
+})
+
+
 def main():
     rows = []
     for d in sorted(glob.glob("/verif/seeded/*")):
